@@ -279,8 +279,8 @@ def flagCharsOk : Bool → Str → Bool
     if ch = 92 then (if first then flagCharsOk false r else false)
     else if isAtomChar ch then flagCharsOk false r else false
 
-/-- encoder.go isValidFlag (as shipped: a lone backslash passes — finding F01 of C01) -/
-def isValidFlag (s : Str) : Bool := flagCharsOk true s && s.length > 0
+/-- encoder.go isValidFlag (after the repair of C01's F01: a lone backslash is not a flag) -/
+def isValidFlag (s : Str) : Bool := flagCharsOk true s && s.length > 0 && s ≠ [92]
 
 def systemFlags : List Str :=
   [str "\\Seen", str "\\Answered", str "\\Flagged", str "\\Deleted", str "\\Draft", str "$Forwarded", str "$MDNSent",
@@ -320,6 +320,7 @@ def valOf (ds : Str) : Nat := ds.foldl (fun a d => a * 10 + (d - 48)) 0
 
 /-! ## the writers (imapclient) -/
 
+/-- `invalidFlag` stands for every argument the encoder refuses: an invalid flag or attribute, a negative number -/
 inductive Refused where
   | invalidFlag | emptySet | unmodelled
 deriving DecidableEq, Repr
@@ -384,7 +385,7 @@ def wPart : List Int → Except Refused Wire
 def wPartial : Option Partial → Except Refused Wire
   | none => .ok []
   | some p =>
-    if p.offset < 0 || p.size < 0 then .error .unmodelled
+    if p.offset < 0 || p.size < 0 then .error .invalidFlag   -- Encoder.Number64 refuses negative numbers
     else .ok ([.b 60] ++ atom (digits p.offset.toNat) ++ [.b 46] ++ atom (digits p.size.toNat) ++ [.b 62])
 
 def specName : Spec → Wire
@@ -821,6 +822,19 @@ def pListCmd : P Cmd := fun w => do
   if o2.selRecursive && !o2.selSubscribed then .error .bad
   else pure (.list ref pats o2, r9)
 
+/-- the analysis of the item name in store.go handleStore: upper case, suffix `.SILENT`, prefix `+` / `-`,
+    then `FLAGS` must remain -/
+def storeAnalyse (item : Str) : Option (Nat × Bool) :=
+  let it := upper item
+  let silentSuffix := str ".SILENT"
+  let silent := it.length ≥ silentSuffix.length && it.drop (it.length - silentSuffix.length) = silentSuffix
+  let it1 := if silent then it.take (it.length - silentSuffix.length) else it
+  let (op, it2) : Nat × Str := match it1 with
+    | 43 :: t => (1, t)
+    | 45 :: t => (2, t)
+    | t => (0, t)
+  if it2 ≠ str "FLAGS" then none else some (op, silent)
+
 /-- store.go handleStore -/
 def pStore (uid : Bool) : P Cmd := fun w => do
   let (_, r0) ← pSP w
@@ -833,16 +847,9 @@ def pStore (uid : Bool) : P Cmd := fun w => do
     | some fl => Except.ok (fl, r5)
     | none => Except.error Err.unmodelled)   -- the bare (unparenthesised) flag form is never sent by the client
   let (_, r7) ← pCRLF r6
-  let it := upper item
-  let silentSuffix := str ".SILENT"
-  let silent := it.length ≥ silentSuffix.length && it.drop (it.length - silentSuffix.length) = silentSuffix
-  let it1 := if silent then it.take (it.length - silentSuffix.length) else it
-  let (op, it2) : Nat × Str := match it1 with
-    | 43 :: t => (1, t)
-    | 45 :: t => (2, t)
-    | t => (0, t)
-  if it2 ≠ str "FLAGS" then .error .bad
-  else pure (.store uid s op silent flags, r7)
+  match storeAnalyse item with
+  | none => .error .bad
+  | some (op, silent) => pure (.store uid s op silent flags, r7)
 
 /-- copy.go readCopy -/
 def pCopy (uid mv : Bool) : P Cmd := fun w => do
@@ -1188,68 +1195,92 @@ def pOneMailbox (mk : List Nat → Cmd) : P Cmd := fun w => do
   let (_, r2) ← pCRLF r1
   pure (mk m, r2)
 
-/-- conn.go readCommand: tag, name (upper-cased, `UID` prefix), dispatch.  Returns the session
-    calls the handler makes (state checks are property C05: the harness issues every command in a
-    state that permits it). -/
-def parseOne (cfg : Cfg) (w : Wire) : Except Err (List Cmd × Wire) := do
+/-- login.go handleLogin -/
+def pLogin : P Cmd := fun w => do
+  let (_, r) ← pSP w
+  let (u, r) ← pAString r
+  let (_, r) ← pSP r
+  let (p, r) ← pAString r
+  let (_, r) ← pCRLF r
+  pure (.login u p, r)
+
+/-- conn.go handleRename -/
+def pRename : P Cmd := fun w => do
+  let (_, r) ← pSP w
+  let (m, r) ← pMailbox r
+  let (_, r) ← pSP r
+  let (n, r) ← pMailbox r
+  let (_, r) ← pCRLF r
+  pure (.rename m n, r)
+
+/-- status.go handleStatus -/
+def pStatus : P Cmd := fun w => do
+  let (_, r) ← pSP w
+  let (m, r) ← pMailbox r
+  let (_, r) ← pSP r
+  let (o, r) ← pList pStatusItem {} r
+  let (_, r) ← pCRLF r
+  pure (.status m o, r)
+
+/-- expunge.go handleExpunge / handleUIDExpunge -/
+def pExpunge : P Cmd := fun w => do
+  let (_, r) ← pCRLF w
+  pure (.expunge none, r)
+
+def pUidExpunge : P Cmd := fun w => do
+  let (_, r) ← pSP w
+  let (s, r) ← pNumSet r
+  let (_, r) ← pCRLF r
+  pure (.expunge (some s), r)
+
+def pUnselect : P Cmd := fun w => do
+  let (_, r) ← pCRLF w
+  pure (.unselect, r)
+
+/-- the head of conn.go readCommand: tag, name (upper-cased), `UID` prefix -/
+def pHeader : P (Bool × Str) := fun w => do
   let (_, r0) ← pAtom w
   let (_, r1) ← pSP r0
   let (name0, r2) ← pAtom r1
-  let (uid, name, r3) ← (if upper name0 = str "UID" then do
-      let (_, r) ← pSP r2
-      let (sub, r) ← pAtom r
-      pure (true, upper sub, r)
-    else Except.ok (false, upper name0, r2))
-  let one (p : P Cmd) : Except Err (List Cmd × Wire) := do
-    let (c, r) ← p r3
-    pure ([c], r)
-  if !uid && name = str "LOGIN" then one fun w => do
-    let (_, r) ← pSP w
-    let (u, r) ← pAString r
-    let (_, r) ← pSP r
-    let (p, r) ← pAString r
-    let (_, r) ← pCRLF r
-    pure (.login u p, r)
+  if upper name0 = str "UID" then do
+    let (_, r) ← pSP r2
+    let (sub, r) ← pAtom r
+    pure ((true, upper sub), r)
+  else pure ((false, upper name0), r2)
+
+def one (p : P Cmd) (w : Wire) : Except Err (List Cmd × Wire) := do
+  let (c, r) ← p w
+  pure ([c], r)
+
+/-- the `switch name` of conn.go readCommand.  Returns the session calls the handler makes (state
+    checks are property C05: the harness issues every command in a state that permits it). -/
+def dispatch (cfg : Cfg) (uid : Bool) (name : Str) (w : Wire) : Except Err (List Cmd × Wire) :=
+  if !uid && name = str "LOGIN" then one pLogin w
   else if !uid && (name = str "SELECT" || name = str "EXAMINE") then do
-    let (c, r) ← pOneMailbox (fun m => .select m (name = str "EXAMINE")) r3
+    let (c, r) ← pOneMailbox (fun m => .select m (name = str "EXAMINE")) w
     pure ((if cfg.presel then [.unselect, c] else [c]), r)
-  else if !uid && name = str "CREATE" then one pCreate
-  else if !uid && name = str "DELETE" then one (pOneMailbox .delete)
-  else if !uid && name = str "SUBSCRIBE" then one (pOneMailbox .subscribe)
-  else if !uid && name = str "UNSUBSCRIBE" then one (pOneMailbox .unsubscribe)
-  else if !uid && name = str "RENAME" then one fun w => do
-    let (_, r) ← pSP w
-    let (m, r) ← pMailbox r
-    let (_, r) ← pSP r
-    let (n, r) ← pMailbox r
-    let (_, r) ← pCRLF r
-    pure (.rename m n, r)
-  else if !uid && name = str "LIST" then one pListCmd
-  else if !uid && name = str "STATUS" then one fun w => do
-    let (_, r) ← pSP w
-    let (m, r) ← pMailbox r
-    let (_, r) ← pSP r
-    let (o, r) ← pList pStatusItem {} r
-    let (_, r) ← pCRLF r
-    pure (.status m o, r)
-  else if !uid && name = str "APPEND" then one pAppend
-  else if name = str "COPY" then one (pCopy uid false)
-  else if name = str "MOVE" then one (pCopy uid true)
-  else if name = str "STORE" then one (pStore uid)
-  else if name = str "FETCH" then one (pFetch uid)
-  else if name = str "SEARCH" then one (pSearch uid)
-  else if !uid && name = str "EXPUNGE" then one fun w => do
-    let (_, r) ← pCRLF w
-    pure (.expunge none, r)
-  else if uid && name = str "EXPUNGE" then one fun w => do
-    let (_, r) ← pSP w
-    let (s, r) ← pNumSet r
-    let (_, r) ← pCRLF r
-    pure (.expunge (some s), r)
-  else if !uid && name = str "UNSELECT" then one fun w => do
-    let (_, r) ← pCRLF w
-    pure (.unselect, r)
+  else if !uid && name = str "CREATE" then one pCreate w
+  else if !uid && name = str "DELETE" then one (pOneMailbox .delete) w
+  else if !uid && name = str "SUBSCRIBE" then one (pOneMailbox .subscribe) w
+  else if !uid && name = str "UNSUBSCRIBE" then one (pOneMailbox .unsubscribe) w
+  else if !uid && name = str "RENAME" then one pRename w
+  else if !uid && name = str "LIST" then one pListCmd w
+  else if !uid && name = str "STATUS" then one pStatus w
+  else if !uid && name = str "APPEND" then one pAppend w
+  else if name = str "COPY" then one (pCopy uid false) w
+  else if name = str "MOVE" then one (pCopy uid true) w
+  else if name = str "STORE" then one (pStore uid) w
+  else if name = str "FETCH" then one (pFetch uid) w
+  else if name = str "SEARCH" then one (pSearch uid) w
+  else if !uid && name = str "EXPUNGE" then one pExpunge w
+  else if uid && name = str "EXPUNGE" then one pUidExpunge w
+  else if !uid && name = str "UNSELECT" then one pUnselect w
   else .error .bad
+
+/-- conn.go readCommand -/
+def parseOne (cfg : Cfg) (w : Wire) : Except Err (List Cmd × Wire) := do
+  let ((uid, name), r) ← pHeader w
+  dispatch cfg uid name r
 
 /-- the server reads the protocol commands of one client call one after the other; MOVE needs a
     session implementing it (the harness pairs the MOVE capability with such a session) -/
